@@ -1,6 +1,6 @@
 //! C10 - encoding is independent of call history and of the calling thread.
 //!
-//! Every sequence (length <= 2 quick, <= 3 thorough) over a call alphabet K is executed on one
+//! Every sequence (length <= 3 quick, <= 4 thorough) over a call alphabet K is executed on one
 //! newly spawned thread; call by call the bytes must equal the bytes of the same call made alone
 //! on a fresh thread.
 use crate::bitmodel::{FailingSink, Flavour};
@@ -34,6 +34,13 @@ pub enum Call {
     /// a stream written into a sink that fails on the j-th operation counted from the end of the complete
     /// write (0 = the CRC-16 of the last frame, 1 = the body of the last frame, ...)
     FailingSinkWriteFromEnd(Case, usize),
+    /// stream-level encode of an input whose block `b` holds a sample outside the declared width:
+    /// the call must fail, and what it leaves behind on the thread must not matter
+    EncodeBadSample(Case, usize),
+    /// encode, serialise, parse, decode with the crate's own decoder: the result is the decoded samples
+    EncodeDecode(Case),
+    /// configuration verification of an out-of-range configuration followed by nothing else
+    RejectedConfig,
 }
 
 fn alphabet() -> Vec<(String, Call)> {
@@ -102,7 +109,49 @@ fn alphabet() -> Vec<(String, Call)> {
         c.cfg.window = 0.4;
         v.push(("mono16_one_frame_of_255".into(), Call::Encode(c)));
     }
+    // the remaining widths and channel layouts (base points 3, 4, 5), byte delivery, other order selections
+    v.push(("three_ch12_bs192".into(), Call::Encode(b(3))));
+    v.push(("eight_ch20_bs64".into(), Call::Encode(b(4))));
+    v.push(("stereo24_inverted_bs192".into(), Call::Encode(b(5))));
+    {
+        let mut c = base.clone();
+        c.input.delivery = 2;
+        v.push(("stereo16_bytes".into(), Call::Encode(c)));
+        let mut c = b(2);
+        c.input.delivery = 2;
+        c.input.tail = 63;
+        v.push(("stereo24_bytes_tail63".into(), Call::Encode(c)));
+    }
+    {
+        let mut c = base.clone();
+        c.cfg.order_sel = 0;
+        v.push(("bitcount_order_sel".into(), Call::Encode(c)));
+        let mut c = base.clone();
+        c.cfg.order_sel = 64;
+        c.input.bs = 128;
+        v.push(("approxent64_bs128".into(), Call::Encode(c)));
+    }
+    {
+        // a longer block after/before the shorter ones of the same width: grow-only scratch
+        let mut c = base.clone();
+        c.input.bs = 1152;
+        c.input.full = 1;
+        c.input.tail = 577;
+        v.push(("stereo16_bs1152_tail577".into(), Call::Encode(c)));
+    }
+    v.push(("bad_sample_block0".into(), Call::EncodeBadSample(base.clone(), 0)));
+    v.push(("bad_sample_block1".into(), Call::EncodeBadSample(base.clone(), 1)));
+    v.push(("bad_sample_block1_24bit".into(), Call::EncodeBadSample(b(2), 1)));
+    v.push(("decode_stereo16".into(), Call::EncodeDecode(base.clone())));
+    v.push(("decode_stereo24_loud".into(), Call::EncodeDecode(b(2))));
+    v.push(("rejected_config".into(), Call::RejectedConfig));
     v.push(("frame_level_stereo16".into(), Call::FrameLevel(base.clone())));
+    v.push(("frame_level_stereo24_loud".into(), Call::FrameLevel(b(2))));
+    {
+        let mut c = b(4);
+        c.cfg.workers = 3;
+        v.push(("mt_eight_ch20".into(), Call::EncodeMt(c)));
+    }
     v.push(("mt_stereo16".into(), Call::EncodeMt(base.clone())));
     v.push(("write64_stereo16".into(), Call::EncodeWrite64(base.clone())));
     v.push(("parse_stereo16".into(), Call::EncodeParse(base.clone())));
@@ -124,7 +173,9 @@ fn exec(call: &Call) -> Result<Vec<u8>, String> {
             Call::FrameLevel(c) => subject::encode_bytes(c, &c.input.samples(), Mode::Frame).map(|x| x.1).map_err(|e| e.describe()),
             Call::EncodeMt(c) => {
                 let mut c = c.clone();
-                c.cfg.workers = 2;
+                if c.cfg.workers == 0 {
+                    c.cfg.workers = 2;
+                }
                 subject::encode_bytes(&c, &c.input.samples(), Mode::Mt).map(|x| x.1).map_err(|e| e.describe())
             }
             Call::EncodeWrite64(c) => {
@@ -158,6 +209,38 @@ fn exec(call: &Call) -> Result<Vec<u8>, String> {
                 let mut out = crate::bitmodel::bytes_of_bits(&sink.inner.bits);
                 out.push(u8::from(r.is_ok()));
                 Ok(out)
+            }
+            Call::EncodeBadSample(c, blk) => {
+                let mut smp = c.input.samples();
+                let at = (*blk * c.input.bs as usize * c.input.ch as usize + c.input.ch as usize * 5 + (c.input.ch as usize - 1)).min(smp.len() - 1);
+                smp[at] = 1 << c.input.bps; // outside the declared width
+                match subject::encode_bytes(c, &smp, Mode::St) {
+                    Ok(_) => Ok(b"accepted an out-of-width sample".to_vec()),
+                    Err(subject::EncFail::Error(_)) => Ok(b"refused".to_vec()),
+                    Err(e) => Err(e.describe()),
+                }
+            }
+            Call::EncodeDecode(c) => {
+                use flacenc::component::Decode;
+                let (_, bytes) = subject::encode_bytes(c, &c.input.samples(), Mode::St).map_err(|e| e.describe())?;
+                let (_, parsed) = flacenc::component::parser::stream::<nom::error::Error<&[u8]>>(&bytes).map_err(|e| format!("{e:?}").chars().take(100).collect::<String>())?;
+                let mut out = Vec::new();
+                for i in 0..parsed.frame_count() {
+                    for v in parsed.frame(i).unwrap().decode() {
+                        out.extend_from_slice(&v.to_le_bytes());
+                    }
+                }
+                Ok(out)
+            }
+            Call::RejectedConfig => {
+                use flacenc::error::Verify;
+                let mut e = flacenc::config::Encoder::default();
+                e.subframe_coding.qlpc.lpc_order = 33;
+                e.block_size = 7;
+                Ok(match e.into_verified() {
+                    Ok(_) => b"accepted".to_vec(),
+                    Err(_) => b"rejected".to_vec(),
+                })
             }
             Call::FailingSinkWrite(c, k) => {
                 let s = subject::encode(c, &c.input.samples(), Mode::St).map_err(|e| e.describe())?;
@@ -278,33 +361,73 @@ pub fn run(args: &Args, rep: &Arc<Report>) {
         refs.push(r1);
     }
     let refs = Arc::new(refs);
-    // all sequences of length 1, 2 (and 3)
-    let mut seqs: Vec<Vec<usize>> = Vec::new();
-    for a in 0..k {
-        seqs.push(vec![a]);
-        for b in 0..k {
-            seqs.push(vec![a, b]);
-            // idempotence: the second call repeated
-            seqs.push(vec![a, b, b]);
-            if thorough {
-                for c in 0..k {
-                    if c != b {
-                        seqs.push(vec![a, b, c]);
-                    }
-                }
-            }
-        }
+    // all sequences of length 1..=depth (the index is decoded into the sequence, nothing is materialised)
+    let depth: usize = if thorough { 4 } else { 3 };
+    let mut offsets = vec![0usize];
+    for l in 1..=depth {
+        offsets.push(offsets[l - 1] + k.pow(l as u32));
     }
-    let n = seqs.len();
-    let chunk = 8;
+    let n = offsets[depth];
+    let seq_of = |mut i: usize| -> Vec<usize> {
+        let l = (1..=depth).find(|&l| i < offsets[l]).unwrap();
+        i -= offsets[l - 1];
+        let mut v = vec![0usize; l];
+        for p in (0..l).rev() {
+            v[p] = i % k;
+            i /= k;
+        }
+        v
+    };
+    let chunk = if thorough { 64 } else { 16 };
     par_for(
         rep,
         (n + chunk - 1) / chunk,
         Duration::from_secs(600),
-        |i| json!({"call_sequence_names": seqs[i * chunk].iter().map(|&j| alpha[j].0.clone()).collect::<Vec<_>>()}),
+        |i| json!({"call_sequence_names": seq_of(i * chunk).iter().map(|&j| alpha[j].0.clone()).collect::<Vec<_>>()}),
         |i, local| {
-            for s in &seqs[i * chunk..((i + 1) * chunk).min(n)] {
-                run_sequence(rep, local, &alpha, &refs, s);
+            for x in i * chunk..((i + 1) * chunk).min(n) {
+                run_sequence(rep, local, &alpha, &refs, &seq_of(x));
+            }
+        },
+    );
+    // "... or any other thread": every unordered pair of calls made at the same time on two newly
+    // spawned threads (released together by a barrier; one operating-system schedule per pair - a
+    // sample in the schedule dimension, but every reported difference is a real one)
+    let mut pairs: Vec<(usize, usize)> = Vec::new();
+    for a in 0..k {
+        for b in a..k {
+            pairs.push((a, b));
+        }
+    }
+    let npairs = pairs.len();
+    par_for(
+        rep,
+        npairs,
+        Duration::from_secs(600),
+        |i| json!({"concurrent_pair": [alpha[pairs[i].0].0, alpha[pairs[i].1].0]}),
+        |i, local| {
+            let (a, b) = pairs[i];
+            local.evals += 1;
+            let bar = Arc::new(std::sync::Barrier::new(2));
+            let (al1, al2, b1, b2) = (Arc::clone(&alpha), Arc::clone(&alpha), Arc::clone(&bar), Arc::clone(&bar));
+            let h1 = std::thread::Builder::new().stack_size(16 << 20).spawn(move || { panicx::mark_harness_thread(); b1.wait(); digest(&exec(&al1[a].1)) }).unwrap();
+            let h2 = std::thread::Builder::new().stack_size(16 << 20).spawn(move || { panicx::mark_harness_thread(); b2.wait(); digest(&exec(&al2[b].1)) }).unwrap();
+            let (r1, r2) = (h1.join().expect("harness thread died"), h2.join().expect("harness thread died"));
+            let mut ok = true;
+            for (me, other, r) in [(a, b, &r1), (b, a, &r2)] {
+                if *r != refs[me] {
+                    ok = false;
+                    rep.violation_conclusive(
+                        &format!("thread_dependent|{}|while|{}", alpha[me].0, alpha[other].0),
+                        &format!("the call {} made on a fresh thread while another fresh thread made the call {} produced {} bytes (fnv {:x} {}), alone {} bytes (fnv {:x} {})", alpha[me].0, alpha[other].0, r.0, r.1, r.2, refs[me].0, refs[me].1, refs[me].2),
+                        json!({"call_sequence": [&alpha[me].1], "names": [alpha[me].0], "concurrent_with": alpha[other].0}),
+                        1,
+                    );
+                }
+            }
+            local.outcome(if ok { "pair_ok" } else { "pair_violation" });
+            if ok {
+                local.nontrivial.insert(0x9e37_79b9u64.wrapping_mul(a as u64 + 1).wrapping_add(b as u64));
             }
         },
     );
@@ -312,8 +435,10 @@ pub fn run(args: &Args, rep: &Arc<Report>) {
     rep.sample(json!({"call_sequence_names": [alpha[1].0, alpha[0].0, alpha[0].0]}));
     rep.extra("alphabet", json!(alpha.iter().map(|(n, _)| n.clone()).collect::<Vec<_>>()));
     rep.extra("sequences", json!(n));
+    rep.extra("max_sequence_length_completed", json!(depth));
+    rep.extra("concurrent_pairs", json!(npairs));
     rep.set_rule(&format!(
-        "call alphabet K of {k} calls (stream encodes differing in block size / channels / width / loudness / Rice cap / LPC order / window incl. alphas closer than 2^-16 and adjacent block lengths; frame-level assembly; multi-thread encode; serialisation through the word sink; parse + re-serialise; a header write that fails; stream writes into a failing sink); every sequence over K of length 1 and 2, every length-2 sequence with its last call repeated{}; each sequence runs on one newly spawned thread and each call's bytes must equal the bytes of that call made alone on a fresh thread (references computed twice); non-trivial = a sequence of at least two calls that agreed",
-        if thorough { ", and every sequence of length 3" } else { "" }
+        "call alphabet K of {k} calls (stream encodes differing in block size / channels / width / loudness / Rice cap / LPC order / window incl. alphas closer than 2^-16 and adjacent block lengths; frame-level assembly; multi-thread encode; serialisation through the word sink; parse + re-serialise; a header write that fails; stream writes into a failing sink); an encode refused for an out-of-width sample in block 0 / 1, the crate's own decoder, a rejected configuration); every sequence over K of length 1..={} (complete: |K|+|K|^2+...); each sequence runs on one newly spawned thread and each call's bytes must equal the bytes of that call made alone on a fresh thread (references computed twice); in addition every unordered pair of calls made at the same time on two fresh threads (one OS schedule each); non-trivial = a sequence of at least two calls that agreed",
+        depth
     ));
 }
